@@ -97,7 +97,7 @@ type recJ struct {
 	Keys  []string `json:"keys"` // the key-by result: one keyed event per entry (may be empty)
 }
 type opJ struct {
-	Op    string `json:"op"` // read | barrier | tick | fire / expire / deliver (which: all|new|old) | relkb | holdop | relop
+	Op    string `json:"op"` // read | eoi (last chunk, returned with ErrEndOfInput) | barrier | tick | fire / expire / deliver (which: all|new|old) | relkb | holdop | relop
 	Recs  []recJ `json:"recs,omitempty"`
 	ID    uint64 `json:"id,omitempty"`
 	I     int    `json:"i,omitempty"`
@@ -434,6 +434,7 @@ type logItem struct {
 }
 type chunk struct {
 	nop  bool
+	eoi  bool // this is the last chunk: it is returned together with ErrEndOfInput
 	recs []recJ
 }
 type reader struct {
@@ -451,6 +452,9 @@ type reader struct {
 	dup         bool
 	spins       int
 	gaveUp      bool
+	atEOI       bool     // ErrEndOfInput has been reported
+	handed      [][]byte // every record handed out so far
+	extraReads  int      // ReadEvents calls after ErrEndOfInput was reported
 }
 
 func (r *reader) noticeTickLocked() {
@@ -462,6 +466,15 @@ func (r *reader) noticeTickLocked() {
 func (r *reader) ReadEvents() ([][]byte, error) {
 	r.mu.Lock()
 	r.noticeTickLocked()
+	if r.atEOI {
+		// A bounded source that is asked again after it reported the end of its input starts over (like the fixture reader of
+		// testrun): it hands out all its records once more. These are NOT new input: if they get delivered, records are
+		// delivered twice. A correct ReadSourceChannel never comes here.
+		r.extraReads++
+		again := append([][]byte{}, r.handed...)
+		r.mu.Unlock()
+		return again, connectors.ErrEndOfInput
+	}
 	spin := r.ckptSeen < r.ckptReq || r.tickPending
 	if spin {
 		r.spins++
@@ -497,7 +510,12 @@ func (r *reader) ReadEvents() ([][]byte, error) {
 		r.seq++
 		b, _ := json.Marshal(payload{ID: rec.ID, Split: rec.Split, Keys: rec.Keys, Seq: r.seq})
 		out = append(out, b)
+		r.handed = append(r.handed, b)
 		r.log = append(r.log, logItem{Kind: "rec", ID: rec.ID, Split: rec.Split, Keys: rec.Keys})
+	}
+	if c.eoi {
+		r.atEOI = true
+		return out, connectors.ErrEndOfInput // "still return events even with the EOI error"
 	}
 	return out, nil
 }
@@ -542,6 +560,8 @@ type observed struct {
 	KBOrder   []int     `json:"kb_completion_order"`
 	TimerSets int       `json:"timer_sets"`
 	Late      int       `json:"late_callbacks"`
+	EOI       bool      `json:"end_of_input_reported"`
+	ExtraReads int      `json:"reads_after_end_of_input"`
 	Races     int       `json:"select_races"`
 	TimedOut  bool      `json:"timed_out"`
 }
@@ -610,17 +630,22 @@ func runCase(p params, ops []opJ) (*observed, error) {
 	quiesce()
 
 	obs := &observed{}
+	eoiSent := false
 	expected := 0 // events the operators must receive in total
 	for _, op := range ops {
 		switch op.Op {
-		case "read":
+		case "read", "eoi": // eoi: the last chunk (possibly empty), returned with ErrEndOfInput; later reads are void
+			if eoiSent {
+				break
+			}
 			rd.mu.Lock()
 			rd.queued++
 			rd.mu.Unlock()
 			for _, rec := range op.Recs {
 				expected += len(rec.Keys)
 			}
-			rd.inbox <- &chunk{recs: op.Recs}
+			eoiSent = op.Op == "eoi"
+			rd.inbox <- &chunk{recs: op.Recs, eoi: eoiSent}
 		case "barrier":
 			rd.mu.Lock()
 			rd.ckptReq++
@@ -630,6 +655,7 @@ func runCase(p params, ops []opJ) (*observed, error) {
 			rd.inbox <- &chunk{nop: true}
 		case "tick":
 			rd.mu.Lock()
+			rd.noticeTickLocked() // after the end of input nobody calls the reader any more
 			sent := false
 			if !rd.tickPending {
 				rd.ticks <- time.Unix(0, 0)
@@ -707,7 +733,10 @@ func runCase(p params, ops []opJ) (*observed, error) {
 	}
 
 	rd.mu.Lock()
+	rd.noticeTickLocked()
 	obs.Input = append([]logItem{}, rd.log...)
+	obs.EOI = rd.atEOI
+	obs.ExtraReads = rd.extraReads
 	obs.Unread = rd.queued
 	dup := rd.dup
 	rd.mu.Unlock()
@@ -769,7 +798,7 @@ func (eng) Rule(mode string) string {
 	if mode == "c05" {
 		return "mode c05 (routing of fan-out records through the real SourceRunner): 2..5 operators, key-group counts 1..64 incl. fewer groups than operators, harness-fired batch time-outs (MaxDelay > 0), 4..12 records each fanning out into 1..4 keyed events with random keys (length 0..12); observable: (key, operator index) of every keyed event an operator's HandleEventBatch received. Non-trivial: a record with several keys and at least two operators reached."
 	}
-	return "one real SourceRunner per case: 1..4 operators, key-group counts from the operator count to 64, MaxSize 0..6, time-outs none / one harness timer per batcher (expiry and - possibly late - delivery of the callback scripted, Stop cancels what has not expired) / real (20us..2ms), 3..40 records over 1..3 splits with 0..3 keyed events each from a small key alphabet, barriers and watermark ticks at generated positions, gated KeyEventBatch completions released oldest/newest first, gated operators. Non-trivial: at least two operators, at least 4 keyed events, and a key that occurs in two records of one split."
+	return "one real SourceRunner per case: 1..4 operators, key-group counts from the operator count to 64, MaxSize 0..6, time-outs none / one harness timer per batcher (expiry and - possibly late - delivery of the callback scripted, Stop cancels what has not expired) / real (20us..2ms), 3..40 records over 1..3 splits with 0..3 keyed events each from a small key alphabet, barriers and watermark ticks at generated positions, in 2 of 5 cases a bounded source (the last read returns ErrEndOfInput; a reader asked again afterwards would hand out all its records once more), gated KeyEventBatch completions released oldest/newest first, gated operators. Non-trivial: at least two operators, at least 4 keyed events, and a key that occurs in two records of one split."
 }
 
 func coqMarker(k string, id uint64) string {
@@ -916,6 +945,8 @@ func (eng) Execute(mode string, c *hx.Case) (*hx.Result, error) {
 	add(sameKey, "same_split_same_key_repeats")
 	add(obs.Unread > 0, "unread_chunks")
 	add(obs.Late > 0, "late_callback_delivered")
+	add(obs.EOI, "end_of_input")
+	add(obs.ExtraReads > 0, "read_after_end_of_input")
 	add(p.KBGate, "kbgate")
 	add(p.OpGate, "opgate")
 	add(obs.TimedOut, "timed_out")
@@ -1109,6 +1140,31 @@ func genCase(r *hx.Rand, big bool) *hx.Case {
 				ops = append(ops, hx.Op(opJ{Op: "read", Recs: []recJ{{ID: id, Split: r.Intn(nsplits), Keys: []string{alphabet[r.Intn(nalpha)]}}}}),
 					hx.Op(opJ{Op: "fire", Which: "kb"}), hx.Op(opJ{Op: "relkb", Which: "all"}))
 				id++
+			}
+		}
+	}
+	// a bounded source: the last read reports the end of input, either together with its records or in a read of its own
+	if r.Chance(2, 5) {
+		last := -1
+		for i, raw := range ops {
+			var o opJ
+			json.Unmarshal(raw, &o)
+			if o.Op == "read" {
+				last = i
+			}
+		}
+		if last >= 0 {
+			var o opJ
+			json.Unmarshal(ops[last], &o)
+			if r.Bool() {
+				o.Op = "eoi"
+				ops[last] = hx.Op(o)
+			} else {
+				ops = append(ops[:last+1], append([]json.RawMessage{hx.Op(opJ{Op: "eoi"})}, ops[last+1:]...)...)
+			}
+			if r.Bool() {
+				ops = append(ops, hx.Op(opJ{Op: "tick"}), hx.Op(opJ{Op: "barrier", ID: bar}))
+				bar++
 			}
 		}
 	}
